@@ -954,8 +954,9 @@ impl Drop for SysServer {
 
 fn generate(rng: &mut Rng, n: u64, tier: &str, emit: &mut dyn FnMut(Vec<String>)) {
     // `fspathsys`, quick tier: every second case of the same stream (which half: by the seed), the traced process being
-    // about five times slower; thorough: all of them
-    let stride: u64 = if sys_mode() && tier != "thorough" { 2 } else { 1 };
+    // about five times slower; thorough: every sixteenth case of the (more than ten times longer) thorough stream - traced in
+    // full it runs for well over half an hour
+    let stride: u64 = if sys_mode() { if tier == "thorough" { 16 } else { 2 } } else { 1 };
     let phase: u64 = std::env::var("VERIF_SEED").ok().and_then(|s| s.parse::<u64>().ok()).unwrap_or(1) % stride;
     let mut index: u64 = 0;
     let emit_all = emit;
